@@ -85,7 +85,7 @@ mutant("m04b", "C04", "asmjit/core/codeholder.cpp", "          size_t at_entry_i
 mutant("m04c", "C04", "asmjit/core/codeholder.cpp", "          if (byte1 == 0xE8) {\n            // Patch CALL/MOD byte to FF /2 (-> 0x15).\n            byte1 = x86_encode_mod(0, 2, 5);\n          }\n          else if (byte1 == 0xE9) {\n            // Patch JMP/MOD byte to FF /4 (-> 0x25).\n            byte1 = x86_encode_mod(0, 4, 5);\n          }",
        "          if (byte1 == 0xE8) {\n            // Patch CALL/MOD byte to FF /2 (-> 0x15).\n            byte1 = x86_encode_mod(0, 2, 5);\n          }\n          else if (byte1 == 0xE9) {\n            // Patch JMP/MOD byte to FF /4 (-> 0x25).\n            byte1 = x86_encode_mod(0, 2, 5);\n          }", "far jmp rewritten to a call through the address table")
 mutant("m04d", "C04", "asmjit/core/codeholder.cpp", "    // The entries written to the address table are its content regardless of where the section is.\n    address_table_section->_buffer._size = address_table_size;\n", "    if (_sections_by_order.last() == address_table_section) address_table_section->_buffer._size = address_table_size;\n", "revert fix: address table empty when it is not the last section")
-mutant("m04e", "C04", "asmjit/core/codeholder.cpp", "        value += base_address + target_section->offset();", "        value += base_address + (target_section->section_id() ? 0u : target_section->offset()) + target_section->offset();", "kRelToAbs adds the section offset twice for sections other than .text... (only visible with a data section)")
+mutant("m04e", "C04", "asmjit/core/codeholder.cpp", "        value += base_address + target_section->offset();", "        value += base_address + (target_section->section_id() ? target_section->offset() : 0u) + target_section->offset();", "kRelToAbs adds the section offset twice for sections other than .text... (only visible with a data section)")
 
 def run(cmd, env=None, timeout=3600):
     e = dict(os.environ); e.update(env or {})
